@@ -771,6 +771,16 @@ class ApiRun:
                 ctx.violation(f"{s.name}.{m.name} ({variant}, {sp}{', ' + state if state else ''}): payload does not decode to the caller's request",
                               dict(case, got_b64=[U.b64(x) for x in got]), known)
                 continue
+            # the call must not mutate its argument (auto-populated UUID4 fields are filled in on the caller's message: C18's business)
+            if sp in ("message", "dict") and o.get("arg_before") is not None and o.get("arg_before") != o.get("arg_after"):
+                same = False
+                if auto and o["arg_before"].startswith("m:") and (o.get("arg_after") or "").startswith("m:"):
+                    b4, af = self.dyn.parse(m.input_type, o["arg_before"][2:]), self.dyn.parse(m.input_type, o["arg_after"][2:])
+                    af, problem = self.strip_auto(af, b4, auto)
+                    same = problem is None and af == b4
+                if not same:
+                    ctx.violation(f"{s.name}.{m.name} ({variant}, {sp}): the call changed the caller's request object (it must not mutate its argument)",
+                                  dict(case, before=o["arg_before"], after=o.get("arg_after")), known)
             if not consume_ok:
                 continue
             if o.get("extra_await"):
